@@ -72,6 +72,7 @@ type ServerSpec struct {
 	Scheme       string            `json:"scheme,omitempty"`     // scheme this server is served under ("" = https); its own IRIs use it
 	MintScheme   string            `json:"mint_scheme,omitempty"` // scheme of the ids Database.NewID mints ("" = the serving scheme)
 	ClockFine    bool              `json:"clock_fine,omitempty"` // clock advances by 1..1500 ms per read instead of 1 s
+	Custom       map[string]string `json:"custom,omitempty"`     // non-nil: the actor is pub.NewCustomActor over a scripted DelegateActor; method -> outcome
 }
 
 type ReqSpec struct {
